@@ -1910,3 +1910,171 @@ Proof.
   split; [apply fresh_scratch_wf|].
   vm_compute. repeat split.
 Qed.
+
+(* ================================================================== *)
+(* A3 for the ILU(0) smoother (WZ3).
+   AmgBlockCycleSym3Ilu.v: over a non-commutative ring with an involutive anti-automorphism the triangular solve
+   N = (D^-1 + U)^-1 (I + L)^-1 is hermitian w.r.t. ipH as soon as  L_ij = (D_j U_ji)^H  and  D_j^H = D_j  (D the inverted
+   pivots): the operator hypothesis of C02_ilu0_symmetry_condition_blocks becomes a finite condition on the factors.
+   AmgBlockCycleSym3IluFactors.v: for commuting values that relation is PROVED for the factors Ilu.ilu0 computes from any
+   symmetric matrix with symmetric pattern (strong induction over the IKJ elimination, from exactness on the pattern).
+   AmgBlockCycleSym3IluBuilt.v: hierarchies of amg_init. *)
+From Amgcl Require Import IluProofs AmgCycleSymCheb AmgCycleSymChebBuilt AmgBlockCycleSym3Ilu AmgBlockCycleSym3IluFactors
+  AmgBlockCycleSym3IluBuilt AmgBlockCycleSym3Solve.
+
+Theorem C02_ilu0_factors_symmetric {S : Scalar} (Sft : Sfield S) (Seqb : seqb_spec S)
+  (A : crs S) (junk : vec S) (L U : crs S) (D : vec S) :
+  wf A = true -> ncols A = nrows A ->
+  (forall i, i < nrows A -> sorted_strict (nth i (rows A) []) = true) -> has_diag A = true ->
+  ilu0 A junk = Ok (L, U, D) ->
+  (forall i j, i < nrows A -> j < nrows A -> mget A i j = mget A j i) ->
+  (forall i j, i < nrows A -> j < nrows A -> has_col j (nth i (rows A) []) = has_col i (nth j (rows A) [])) ->
+  forall i j, i < nrows A -> j < nrows A -> mget L i j = vget D j * mget U j i.
+Proof. exact (ilu0_factors_sym Sft Seqb A junk L U D). Qed.
+Print Assumptions C02_ilu0_factors_symmetric.
+
+Theorem C02_ilu_solve_hermitian_blocks {S : Scalar} (Hnc : ncring_theory S)
+  (adj_add : forall a b : S, sadj (a + b) = sadj a + sadj b)
+  (adj_mul : forall a b : S, sadj (a * b) = sadj b * sadj a)
+  (adj_inv : forall a : S, sadj (sadj a) = a) (L U : crs S) (D : vec S) :
+  strict_lower L -> strict_upper (nrows L) U -> factors_herm L U D ->
+  forall f g, length f = nrows L -> length g = nrows L ->
+  ipH (nrows L) (ilu_solve L U D f) g = ipH (nrows L) f (ilu_solve L U D g).
+Proof. exact (ilu_solve_herm Hnc adj_add adj_mul adj_inv L U D). Qed.
+Print Assumptions C02_ilu_solve_hermitian_blocks.
+
+(* good5 for ILU(0) over non-commuting values: reduced to the entrywise factor relation *)
+Theorem C02_ilu0_good5_from_factors {S : Scalar} (Hnc : ncring_theory S) (Seqb : seqb_spec S)
+  (adj_add : forall a b : S, sadj (a + b) = sadj a + sadj b)
+  (adj_mul : forall a b : S, sadj (a * b) = sadj b * sadj a)
+  (adj_inv : forall a : S, sadj (sadj a) = a) (w : S) (A L U : crs S) (D : vec S) :
+  wf A = true -> ncols A = nrows A -> ilu0 A (vzero (nrows A)) = Ok (L, U, D) ->
+  sadj w = w -> (forall c : S, w * c = c * w) -> factors_herm L U D -> good5 (R5Ilu0 w) A.
+Proof. exact (ilu0_good5_factors Hnc Seqb adj_add adj_mul adj_inv w A L U D). Qed.
+Print Assumptions C02_ilu0_good5_from_factors.
+
+(* commuting values: ILU(0) is consistent and self-adjoint on every symmetric level matrix that ilu0 accepts *)
+Theorem C02_ilu0_consistent_self_adjoint {S : Scalar} (Sft : Sfield S) (Seqb : seqb_spec S)
+  (sadj_id : forall a : S, sadj a = a) (w : S) (A : crs S) :
+  wf A = true -> sym_mat (nrows A) A -> ilu0_level_ok A ->
+  sweep_cons (nrows A) A (fst (mk_relax5 (R5Ilu0 w) A)) /\ sweep_cons (nrows A) A (snd (mk_relax5 (R5Ilu0 w) A)) /\
+  sweep_adj (nrows A) (fst (mk_relax5 (R5Ilu0 w) A)) (snd (mk_relax5 (R5Ilu0 w) A)).
+Proof. exact (ilu0_sweeps_sym Sft Seqb sadj_id w A). Qed.
+Print Assumptions C02_ilu0_consistent_self_adjoint.
+
+(* hierarchies of amg_init smoothed by ilu0 (any damping), exact coarse solve: no hypothesis about the smoother; the
+   level condition ilu0_level_ok is structural (sorted rows without duplicates, stored diagonal, symmetric pattern, the
+   constructor does not throw) *)
+Theorem C02_apply_symmetric_ilu0 {S : Scalar} (Sft : Sfield S) (Seqb : seqb_spec S)
+  (sadj_id : forall a : S, sadj a = a) (w : S) ce dc ml sc ts (M : crs S) k nc pc :
+  wf M = true -> sym_mat (nrows M) M -> ts_sym (nrows M) ts ->
+  (forall A, In (LSolve A) (amg_init ce dc ml (coarse_op_of sc) ts M) -> solvable A = true /\ sym_mat (nrows A) A) ->
+  (forall l, In l (amg_init ce dc ml (coarse_op_of sc) ts M) -> ilu0_level_ok (ld_A l)) ->
+  let lvls := map (instantiate (mk_relax5 (R5Ilu0 w)) mk_solve_exact) (amg_init ce dc ml (coarse_op_of sc) ts M) in
+  (pc = 0 \/ nosolve_top lvls) ->
+  forall scr1 scr2 f g x1 x2,
+  scratch_wf lvls scr1 -> scratch_wf lvls scr2 ->
+  length f = nrows M -> length g = nrows M -> length x1 = nrows M -> length x2 = nrows M ->
+  dot (fst (apply k k nc (Datatypes.S pc) lvls scr1 f x1)) g =
+  dot f (fst (apply k k nc (Datatypes.S pc) lvls scr2 g x2)).
+Proof. exact (built_apply_sym_ilu0 Sft Seqb sadj_id w ce dc ml sc ts M k nc pc). Qed.
+Print Assumptions C02_apply_symmetric_ilu0.
+
+Theorem C02_apply_symmetric_ilu0_Qc (w : QcS) ce dc ml sc ts (M : crs QcS) k nc pc :
+  wf M = true -> sym_mat (nrows M) M -> ts_sym (nrows M) ts ->
+  (forall A, In (LSolve A) (amg_init ce dc ml (coarse_op_of sc) ts M) -> solvable A = true /\ sym_mat (nrows A) A) ->
+  (forall l, In l (amg_init ce dc ml (coarse_op_of sc) ts M) -> ilu0_level_ok (ld_A l)) ->
+  let lvls := map (instantiate (mk_relax5 (R5Ilu0 w)) mk_solve_exact) (amg_init ce dc ml (coarse_op_of sc) ts M) in
+  (pc = 0 \/ nosolve_top lvls) ->
+  forall scr1 scr2 f g x1 x2,
+  scratch_wf lvls scr1 -> scratch_wf lvls scr2 ->
+  length f = nrows M -> length g = nrows M -> length x1 = nrows M -> length x2 = nrows M ->
+  dot (fst (apply k k nc (Datatypes.S pc) lvls scr1 f x1)) g =
+  dot f (fst (apply k k nc (Datatypes.S pc) lvls scr2 g x2)).
+Proof. exact (built_apply_sym_ilu0 QcS_field QcS_eqb (fun _ => eq_refl) w ce dc ml sc ts M k nc pc). Qed.
+Print Assumptions C02_apply_symmetric_ilu0_Qc.
+
+(* block values, ILU(0) on every level (smoother on the coarsest level): the factor relation is checked on the computed
+   factors of every level (ilu0_level_hermb: wf, square, ilu0 succeeds, L_ij = (D_j U_ji)^H, D_j^H = D_j) *)
+Theorem C02_apply_symmetric_blocks_ilu0 (S0 : Scalar) (b : nat) (Srt : Sring S0) (Seqb0 : seqb_spec S0) (Hb : 0 < b)
+  (sadj_add0 : forall x y : S0, sadj (x + y) = sadj x + sadj y)
+  (sadj_mul0 : forall x y : S0, sadj (x * y) = sadj x * sadj y)
+  (sadj_invol0 : forall x : S0, sadj (sadj x) = x)
+  (w : BlockS S0 b) ce ml (sc : option (BlockS S0 b)) ts (M : crs (BlockS S0 b)) k nc pc :
+  sadj w = w -> (forall c : BlockS S0 b, w * c = c * w) ->
+  scale_herm sc -> wf M = true -> herm_mat (nrows M) M -> ts_herm (nrows M) ts ->
+  (forall l, In l (amg_init ce false ml (coarse_op_of sc) ts M) -> ilu0_level_hermb S0 b (ld_A l) = true) ->
+  let lvls := block_levels S0 b (R5Ilu0 w) (amg_init ce false ml (coarse_op_of sc) ts M) in
+  forall scr1 scr2 f g x1 x2,
+  scratch_wf lvls scr1 -> scratch_wf lvls scr2 ->
+  length f = nrows M -> length g = nrows M -> length x1 = nrows M -> length x2 = nrows M ->
+  ipH (S := BlockS S0 b) (nrows M) (fst (apply k k nc (Datatypes.S pc) lvls scr1 f x1)) g =
+  ipH (S := BlockS S0 b) (nrows M) f (fst (apply k k nc (Datatypes.S pc) lvls scr2 g x2)).
+Proof.
+  exact (block_apply_herm_ilu0 S0 b Srt Seqb0 Hb sadj_add0 sadj_mul0 sadj_invol0 w ce ml sc ts M k nc pc).
+Qed.
+Print Assumptions C02_apply_symmetric_blocks_ilu0.
+
+(* (c) of the FULL STATEMENT: the hypothesis solve_symH for mk_solve_block CANNOT be discharged: it quantifies over all block
+   vectors, the solver reads column 0 of the right-hand-side blocks and writes column-0 blocks; refuted for the 1 x 1
+   block identity matrix, b = 2 *)
+Theorem C02_block_coarse_solve_not_hermitian_on_general_blocks :
+  ~ solve_symH (S := B2) 1 (mk_solve_block QcS 2 exB1).
+Proof. exact block_solve_symH_refuted. Qed.
+Print Assumptions C02_block_coarse_solve_not_hermitian_on_general_blocks.
+
+(* non-vacuity, commuting values: ILU(0) with damping 3/4 on the hierarchies of AmgExampleData.v (direct solver on the
+   1 x 1 level / smoother on it): hypotheses of C02_apply_symmetric_ilu0_Qc, the W(2,2)-cycle applied twice is symmetric,
+   non-zero *)
+Example C02_example_ilu0_symmetric :
+  let mk := map (instantiate (mk_relax5 (R5Ilu0 (qc 3 4))) (@mk_solve_exact QcS)) in
+  let z := [exq 0; exq 0; exq 0; exq 0] in
+  let B := fun H f => fst (apply 2 2 2 2 (mk H) (map (@fresh_scratch QcS) H) f z) in
+  wf exM = true /\ sym_mat (nrows exM) exM /\ ts_sym (nrows exM) exTs /\
+  (forall A, In (LSolve A) exH -> solvable A = true /\ sym_mat (nrows A) A) /\
+  (forall l, In l exH -> ilu0_level_ok (ld_A l)) /\ (forall l, In l exH' -> ilu0_level_ok (ld_A l)) /\
+  scratch_wf (mk exH) (map (@fresh_scratch QcS) exH) /\
+  seqb (dot (B exH exF) exG) (dot exF (B exH exG)) = true /\
+  seqb (dot (B exH' exF) exG) (dot exF (B exH' exG)) = true /\
+  vec_eqb (B exH exF) z = false.
+Proof.
+  cbv zeta.
+  split; [vm_compute; reflexivity|].
+  split; [apply (sym_matb_ok QcS_eqb); vm_compute; reflexivity|].
+  split; [apply (ts_symb_ok QcS_eqb); vm_compute; reflexivity|].
+  split; [apply (solve_sym_check_ok QcS_eqb); vm_compute; reflexivity|].
+  split; [apply levels_ilu0_okb_ok; vm_compute; reflexivity|].
+  split; [apply levels_ilu0_okb_ok; vm_compute; reflexivity|].
+  split; [apply fresh_scratch_wf|].
+  vm_compute. repeat split.
+Qed.
+
+(* non-vacuity, non-commuting 2 x 2 blocks (AmgBlockCycleExample.v, smoother on the coarse level): the factor relation
+   holds on the computed factors of both levels, the damping 3/4 I is central and hermitian, and the identity for the
+   W(1,1)-cycle; on column vectors the block coarse solver is self-adjoint (cf. the refutation above) *)
+Example C02_example_blocks_ilu0_symmetric :
+  let w := blk_embed QcS 2 (qc 3 4) in
+  scale_herm (S := B2) (Some exBhalf) /\ wf exBM = true /\ herm_mat (S := B2) (nrows exBM) exBM /\
+  ts_herm (S := B2) (nrows exBM) exBTs /\
+  sadj (s := B2) w = w /\
+  forallb (fun l => ilu0_level_hermb QcS 2 (ld_A l)) exBH' = true /\
+  seqb (s := B2)
+    (ipH (S := B2) 3 (fst (apply 1 1 2 1 (block_levels QcS 2 (R5Ilu0 (S := B2) w) exBH')
+                             (map (@fresh_scratch B2) exBH') exBF exBZ)) exBG)
+    (ipH (S := B2) 3 exBF (fst (apply 1 1 2 1 (block_levels QcS 2 (R5Ilu0 (S := B2) w) exBH')
+                                  (map (@fresh_scratch B2) exBH') exBG exBZ)))
+    = true /\
+  seqb (s := B2)
+    (ipH (S := B2) 2 (mk_solve_block QcS 2 exBAc [bcol 1 2; bcol 3 4] [bq 0 0 0 0; bq 0 0 0 0]) [bcol 5 6; bcol 7 8])
+    (ipH (S := B2) 2 [bcol 1 2; bcol 3 4] (mk_solve_block QcS 2 exBAc [bcol 5 6; bcol 7 8] [bq 0 0 0 0; bq 0 0 0 0]))
+  = true.
+Proof.
+  cbv zeta.
+  split; [apply (scale_herm_embed QcS 2 QcS_ring); reflexivity|].
+  split; [vm_compute; reflexivity|].
+  split; [apply (herm_matb_ok (BlockS_eqb QcS 2 QcS_eqb)); vm_compute; reflexivity|].
+  split; [apply (ts_hermb_ok (BlockS_eqb QcS 2 QcS_eqb)); vm_compute; reflexivity|].
+  split; [apply (proj1 (BlockS_eqb QcS 2 QcS_eqb _ _)); vm_compute; reflexivity|].
+  split; [vm_compute; reflexivity|].
+  split; vm_compute; reflexivity.
+Qed.
